@@ -2,6 +2,7 @@ package rules
 
 import (
 	"go/token"
+	"go/types"
 	"strings"
 
 	"golang.org/x/tools/go/ssa"
@@ -94,7 +95,8 @@ func runSEEKSTOP(c *Ctx) {
 			n++
 			pos := P.InstrPos(call)
 			what := "node read in " + ir.FuncName(fn)
-			ok2 := ir.FlowFact(call, func(fc ir.Fact) bool {
+			var baseFact func(fc ir.Fact, probe *ssa.Parameter) bool
+			baseFact = func(fc ir.Fact, probe *ssa.Parameter) bool {
 				bin, isBin := fc.Cond.(*ssa.BinOp)
 				if !isBin {
 					return false
@@ -123,6 +125,22 @@ func runSEEKSTOP(c *Ctx) {
 							}
 						}
 					}
+				}
+				return false
+			}
+			ok2 := ir.FlowFact(call, func(fc ir.Fact) bool {
+				if baseFact(fc, probe) {
+					return true
+				}
+				// a predicate helper handed the probe (`found, err := c.pointsAtKey(pe, key)`): it answers false only
+				// where the position is past the last key or the probe differs from the entry there
+				if ex, isEx := ir.ResolveCell(fc.Cond).(*ssa.Extract); isEx && ex.Index == 0 && !fc.Truth {
+					if hc, isC := ex.Tuple.(*ssa.Call); isC {
+						return stopPredicate(c, hc, probe, baseFact)
+					}
+				}
+				if hc, isC := ir.ResolveCell(fc.Cond).(*ssa.Call); isC && !fc.Truth {
+					return stopPredicate(c, hc, probe, baseFact)
 				}
 				return false
 			}, func(i ssa.Instruction) bool {
@@ -241,7 +259,45 @@ func runSEEKLEAF(c *Ctx) {
 			cyc = append(cyc, b)
 		}
 	}
-	if len(cyc) == 0 {
+	// the loop may have been extracted into a private helper that is handed the path: the call stands for the loop
+	var loopCalls []*ssa.Call
+	var helperCyc []*ssa.BasicBlock
+	for _, ci := range CallsOf(seek) {
+		call, ok := ci.(*ssa.Call)
+		if !ok || !ir.InstrReaches(descent, call) {
+			continue
+		}
+		h := ir.Callee(call.Call)
+		if h == nil || h == seek {
+			continue
+		}
+		inReg := false
+		for _, f := range region {
+			if f == h {
+				inReg = true
+			}
+		}
+		takesPath := false
+		for _, a := range call.Call.Args {
+			if sl, ok := a.Type().Underlying().(*types.Slice); ok && ir.IsNamed(sl.Elem(), pathNames(P).typ) {
+				takesPath = true
+			}
+		}
+		if !inReg || !takesPath {
+			continue
+		}
+		has := false
+		for _, b := range h.Blocks {
+			if inCycle(b) {
+				helperCyc = append(helperCyc, b)
+				has = true
+			}
+		}
+		if has {
+			loopCalls = append(loopCalls, call)
+		}
+	}
+	if len(cyc) == 0 && len(loopCalls) == 0 {
 		c.Violation(seek, P.InstrPos(descent), "no loop over the search path after the descent", "the levels above the position found are never visited: only the entries of one node are yielded")
 		return
 	}
@@ -255,6 +311,11 @@ func runSEEKLEAF(c *Ctx) {
 				inOrAfter = true
 			}
 		}
+		for _, lc := range loopCalls {
+			if ir.Before(lc, r) {
+				inOrAfter = true
+			}
+		}
 		if inOrAfter {
 			c.OK(P.InstrPos(r), "success return of SeekIter after the descent", "inside or after the loop over the search path", false)
 		} else {
@@ -264,7 +325,7 @@ func runSEEKLEAF(c *Ctx) {
 	}
 	// (3)
 	n3 := 0
-	for _, b := range cyc {
+	for _, b := range append(append([]*ssa.BasicBlock(nil), cyc...), helperCyc...) {
 		for _, ins := range b.Instrs {
 			call, ok := ins.(*ssa.Call)
 			if !ok {
@@ -293,7 +354,7 @@ func runSEEKLEAF(c *Ctx) {
 					}
 				}
 				// no deeper entry: i+1 < len(path) refuted
-				if isLenCall(bin.Y) && strings.HasSuffix(ir.Sym(bin.Y), ".path)") {
+				if lc, isLen := ir.ResolveCell(bin.Y).(*ssa.Call); isLen && isLenCall(bin.Y) && len(lc.Call.Args) == 1 && isPathSlice(P, lc.Call.Args[0].Type()) {
 					return (bin.Op == token.LSS && !fc.Truth) || (bin.Op == token.GEQ && fc.Truth)
 				}
 				return false
@@ -309,4 +370,64 @@ func runSEEKLEAF(c *Ctx) {
 	if n3 == 0 {
 		c.AnchorMissing("the per-level iteration call in SeekIter's loop")
 	}
+}
+
+// stopPredicate: the call hands the probe to a same-package helper whose boolean answer, when false (and its error
+// nil), means "the probe is not the entry at the position": every nil-error return of the helper yields the constant
+// true, or the constant false under one of the base facts inside the helper, or a comparison of
+// keyOrder(probe, …) with 0 (whose being false is the base fact itself).
+func stopPredicate(c *Ctx, hc *ssa.Call, probe *ssa.Parameter, baseFact func(ir.Fact, *ssa.Parameter) bool) bool {
+	h := ir.Callee(hc.Call)
+	if h == nil || h.Blocks == nil || h.Pkg == nil || h.Pkg.Pkg.Path() != ir.MastPath || len(hc.Call.Args) != len(h.Params) {
+		return false
+	}
+	var hp *ssa.Parameter
+	for i, a := range hc.Call.Args {
+		if ir.ResolveCell(ir.Strip(a)) == ssa.Value(probe) {
+			hp = h.Params[i]
+		}
+	}
+	if hp == nil {
+		return false
+	}
+	ei := ir.ErrorResultIndex(h.Signature)
+	n := 0
+	for _, r := range ir.Returns(h) {
+		if ei >= 0 && !ir.IsNilConst(r.Results[ei]) {
+			continue
+		}
+		n++
+		rv := ir.ResolveCell(r.Results[0])
+		if v, isC := ir.ConstBool(rv); isC {
+			if v {
+				continue
+			}
+			okFalse := false
+			for _, f := range ir.FactsAt(r.Block()) {
+				if baseFact(f, hp) {
+					okFalse = true
+				}
+			}
+			if !okFalse {
+				return false
+			}
+			continue
+		}
+		// an expression: its being false must be a base fact
+		okExpr := false
+		for _, f := range ir.ExpandFacts([]ir.Fact{{Cond: rv, Truth: false, From: r.Block()}}) {
+			if baseFact(f, hp) {
+				okExpr = true
+			}
+		}
+		if !okExpr {
+			return false
+		}
+	}
+	return n > 0
+}
+
+func isPathSlice(P *ir.Program, t types.Type) bool {
+	sl, ok := t.Underlying().(*types.Slice)
+	return ok && ir.IsNamed(sl.Elem(), pathNames(P).typ)
 }
